@@ -8,6 +8,7 @@ mod props;
 mod recorder;
 mod rng;
 mod wire;
+mod xrun;
 
 use std::path::PathBuf;
 use std::sync::atomic::{AtomicU64, Ordering};
